@@ -417,6 +417,55 @@ def case_conditioning(ctx, n_on, n_off_slopes):
     ctx.prove("guard: a conditioning exists", pre, z3.BoolVal(False), expect="sat", kind="vacuity", axioms=False)
 
 
+def _replay_int_matrix(n_on, n_off):
+    sc = _sc()
+    N = 2 * n_on + n_off
+    rng = numpy.random.RandomState(5)
+    A = rng.randint(-3, 4, size=(N, N))
+    C = A.dot(A.T) + 2 * numpy.eye(N, dtype=int)
+    bad = []
+    for dt in ("int64", "int32"):
+        try:
+            Ri = numpy.asarray(sc.create_tomographic_covariance_reconstructor(C.astype(dt), n_on, 0), dtype=float)
+        except Exception as e:
+            bad.append("raises %s for a %s matrix" % (type(e).__name__, dt))
+            continue
+        Rf = numpy.asarray(sc.create_tomographic_covariance_reconstructor(C.astype(float), n_on, 0), dtype=float)
+        if Ri.shape != Rf.shape or not numpy.allclose(Ri, Rf, rtol=1e-6, atol=1e-9):
+            bad.append("%s matrix: reconstructor differs from the one of the same values in float64 (max diff %.3g)" % (dt, float(numpy.max(numpy.abs(Ri - Rf)))))
+    return bool(bad), dict(what="; ".join(bad) or "ok", n_on=n_on, off_axis_slopes=n_off)
+
+
+def case_int_matrix(ctx, n_on, n_off_slopes):
+    """a covariance matrix handed over with an INTEGER element type (counts, A.A^T of an integer A) gives the reconstructor
+    of the same values in float64: the result must not be cast back 'like the input'"""
+    sc = _sc()
+    St.typed_casts = True
+    N = 2 * n_on + n_off_slopes
+    Cf = symm("C", N)
+    Ci = core.typed(numpy.array([e for e in Cf.flat], dtype=object).reshape(N, N), "int64")
+    pre = core.int_constraints(Cf)
+    ctx.encoded(sc.create_tomographic_covariance_reconstructor)
+    ctx.bounds.update(on_axis_subaps=n_on, off_axis_slopes=n_off_slopes, matrix="symmetric, every entry a symbolic integer, dtype int64 (and the same values as float64)")
+    rp = lambda m: harness.pristine_call(_replay_int_matrix, n_on, n_off_slopes)
+    ctx.fallback = rp
+    npx.INV_LOG.clear()
+
+    def go():
+        with npx.symbolic(sc):
+            return numpy.asarray(sc.create_tomographic_covariance_reconstructor(Ci.copy(), n_on, 0), dtype=object), \
+                numpy.asarray(sc.create_tomographic_covariance_reconstructor(Cf.copy(), n_on, 0), dtype=object)
+    paths, ex = core.run_paths(go, pre, max_paths=16)
+    ctx.explored(ex, len(paths))
+    for pi, pth in enumerate(paths):
+        if pth.exc is not None:
+            ctx.prove("path%d: raises %s for an integer matrix" % (pi, type(pth.exc).__name__), pre + pth.pc, z3.BoolVal(False), replay=rp, axioms=False)
+            continue
+        a, b = pth.out
+        ctx.prove("path%d: integer-typed covariance matrix gives the reconstructor of the same values in float64" % pi, pre + pth.pc + det_nonzero(),
+                  all_eq(a, b) if a.shape == b.shape else z3.BoolVal(False), replay=rp, timeout_ms=60000, replay_on_unknown=True)
+
+
 def build_cases(tier):
     cases = []
     combos = [(1, 2), (1, 3), (1, 4), (2, 4)] if tier == "quick" else [(1, 2), (1, 3), (1, 4), (2, 4), (1, 5), (1, 6), (2, 5), (3, 6)]
@@ -424,6 +473,7 @@ def build_cases(tier):
         cases.append(("normal/n_on=%d/off=%d" % (n_on, n_off), case_normal, dict(n_on=n_on, n_off_slopes=n_off)))
     for n_on, n_off in ([(1, 2), (1, 4)] if tier == "quick" else [(1, 2), (1, 4), (2, 4), (2, 6)]):
         cases.append(("conditioning/n_on=%d/off=%d" % (n_on, n_off), case_conditioning, dict(n_on=n_on, n_off_slopes=n_off)))
+    cases.append(("integer-matrix/n_on=1/off=2", case_int_matrix, dict(n_on=1, n_off_slopes=2)))
     cases.append(("method", case_method, {}))
     cases.append(("method-after-rebuild/threads=1", case_method_rebuild, dict(threads=1)))
     cases.append(("method-after-rebuild/threads=2", case_method_rebuild, dict(threads=2)))
